@@ -9,6 +9,8 @@
 //	           every prefix and every single-byte substitution of 3 valid messages per parser;
 //	           every (field number x wire type x payload) intrusion; SignData conversion.
 //	           Oracle: (object | error), no panic, no nil object with nil error.
+//	stability  ordered pairs / triples of marshal+unmarshal calls on values of different kinds and
+//	           sizes: earlier results (bytes and parsed objects) stay what they were.
 //	round trip full product of the field alphabets of the node-producible domain:
 //	           parse(serialise(x)) has equal content, equal GenHash(), equal stored Hash;
 //	           arbitrary in-memory values: f(f(x)) = f(x) only.
@@ -37,7 +39,8 @@ func main() {
 			"strings <= 2 bytes, prefixes, single-byte substitutions, wire-type intrusions; strings <= 2 bytes are only counted in their own family); " +
 			"a totality case is non-trivial when the protobuf decoder accepted the bytes so that the repository's conversion code ran " +
 			"(the rest is counted as rejected_by_decoder); round-trip cases are the points of a cartesian product of field alphabets, " +
-			"each a distinct value that is serialised, parsed back and compared field by field and by GenHash()/stored Hash",
+			"each a distinct value that is serialised, parsed back and compared field by field and by GenHash()/stored Hash; " +
+			"stability cases are distinct ordered pairs / triples of values (different kinds and sizes, same value twice included) whose marshal and unmarshal results are re-checked after the later calls of the sequence",
 		Assumptions: []string{
 			"the harness' hand-written protobuf wire encoder (varint / length-delimited) is correct",
 			"gogo/protobuf proto.Unmarshal/Marshal and the Go standard library (time, math/big, encoding/json) are trusted",
@@ -129,6 +132,12 @@ func run(c *fw.Ctx) {
 		return false
 	}
 	allKinds := append(append([]string{}, parseKinds...), "signdata")
+
+	// ---- S: result stability over call sequences
+	types.VerifSetLogger(nopLogger{})
+	r.stability(mine)
+	types.InitSerialzation()
+	r.lap("S-stability")
 
 	// ---- T1: every byte string of length <= 2, every parser
 	var s1 [1]byte
@@ -405,6 +414,9 @@ func replay(c *fw.Ctx, raw json.RawMessage) {
 		}
 	case "signdata-struct":
 		r.signDataStruct(k.Idx)
+	case "stability":
+		all, small := stabilityPool()
+		r.stabilityCase(all, small, k.Idx)
 	case "rt", "fix":
 		if !r.runSpaceCase(k.Space, k.Idx) {
 			fmt.Fprintln(os.Stderr, "unknown space", k.Space)
